@@ -132,7 +132,17 @@ def coq_ok_for(vfile):
     bad = [f for f in COQ_FAILED if f in d]
     return not bad, bad
 
+class GlobalLock(Lock):
+    """a lock shared by the checks of every tree under test (the oracles are built in /verif/oracle, which does not
+    depend on the repository)"""
+    def __init__(self, name):
+        self.path = os.path.join(WORK, "lock-" + name)
+
 def build_oracle():
+    with GlobalLock("oracle"):
+        return _build_oracle()
+
+def _build_oracle():
     ora = os.path.join(VERIF, "oracle", "oracle")
     newest = 0
     for fn in os.listdir(COQ_SRC):
